@@ -36,7 +36,7 @@ ASSUMPTIONS = ["the memo key 'sgn0' in an element's __dict__ (functools.cached_p
                "fresh-interpreter replays use this machine's CPython build only"]
 ENGINE = "hypothesis stateful (RuleBasedStateMachine) + fresh-interpreter replays"
 TECHNIQUE = "stateful property-based testing (Hypothesis rule-based state machine) with snapshot invariants"
-_REQ = ["group:field", "group:curve", "group:pairing", "group:hash", "group:codec", "group:bls", "group:secp",
+_REQ = ["threads:concurrent_calls", "group:field", "group:curve", "group:pairing", "group:hash", "group:codec", "group:bls", "group:secp",
         "repeat", "fresh_process_replays", "const_as_argument", "adhoc_field_class", "history:nontrivial"]
 REQUIRED_LABELS = {"quick": _REQ, "thorough": _REQ}
 
@@ -676,7 +676,84 @@ def check_fresh(ctx, W, R, orders):
         ctx.label("fresh_process_replays")
 
 
-ORACLES = {"history": o_history}
+def o_threads(ctx, case):
+    """'After any interleaving of other calls': the same calls made by several threads at once.  Each step (its
+    arguments are constants or literals) is first evaluated alone; then `threads` threads run the whole list
+    `reps` times each, starting at different offsets, with the interpreter's switch interval lowered so that
+    thread switches land inside the library's loops.  Every result must equal the sequential one - a work buffer,
+    table or cache shared between calls shows up as a wrong value (or an exception) in some thread."""
+    import threading
+    W = world()
+    ctx.begin("threads", case)
+    steps, nthreads, reps = case["steps"], case["threads"], case["reps"]
+    R = Runner(W, fresh=True)
+
+    def run(step):
+        fn = W.funcs[step["f"]]
+        args = [R.resolve(r) for r in step["args"]]
+        try:
+            return canon(W.desc(fn.call(*args)))
+        except Exception as e:  # noqa
+            return "raises " + type(e).__name__
+    expected = [run(s_) for s_ in steps]
+    bad, lock = [], threading.Lock()
+
+    def worker(t):
+        for rep in range(reps):
+            for j in range(len(steps)):
+                i = (j + t * 3 + rep) % len(steps)
+                got = run(steps[i])
+                if got != expected[i]:
+                    with lock:
+                        bad.append((t, i, got[:160]))
+                    return
+    old = sys.getswitchinterval()
+    sys.setswitchinterval(1e-5)
+    try:
+        ths = [threading.Thread(target=worker, args=(t,)) for t in range(nthreads)]
+        for th in ths:
+            th.start()
+        for th in ths:
+            th.join()
+    finally:
+        sys.setswitchinterval(old)
+    if bad:
+        t, i, got = bad[0]
+        ctx.violation("threads", f"concurrent_result_differs:{steps[i]['f']}", case,
+                      f"{steps[i]['f']} gives {got} when {nthreads} threads call the library at once and "
+                      f"{expected[i][:160]} when called alone ({len(bad)} thread(s) affected)")
+    ctx.ev(nthreads * reps * len(steps))
+    ctx.label("threads:concurrent_calls", nthreads * reps * len(steps))
+    ctx.nontrivial(["threads", [[s_["f"], s_["args"]] for s_ in steps], nthreads, reps])
+    ctx.sample({"steps": steps[:6], "threads": nthreads, "reps": reps}, "threads")
+
+
+def t_threads(ctx, reps):
+    W = world()
+    OB = "optimized_bls12_381"
+    op = "py_ecc.optimized_bls12_381.optimized_pairing"
+    lit = lambda v: {"v": W.desc(v)}   # noqa: E731
+    f12 = lambda key, k: lit(W.cls_by_key[key]([(k * (i + 3) + i * i) % 1000003 for i in range(12)]))   # noqa: E731
+    steps = [
+        {"f": f"{OB}_FQ12.mul", "args": [f12(f"{OB}_FQ12", 5), f12(f"{OB}_FQ12", 11)]},
+        {"f": "optimized_bn128_FQ12.mul", "args": [f12("optimized_bn128_FQ12", 7), f12("optimized_bn128_FQ12", 13)]},
+        {"f": "bls12_381_FQ12.mul", "args": [f12("bls12_381_FQ12", 7), f12("bls12_381_FQ12", 13)]},
+        {"f": f"{OB}_FQ2.mul", "args": [{"c": f"py_ecc.{OB}.b2"}, {"c": f"py_ecc.{OB}.b2"}]},
+        {"f": "bn128_FQ2.mul", "args": [{"c": "py_ecc.bn128.b2"}, {"c": "py_ecc.bn128.b2"}]},
+        {"f": "adhoc_opt_7_m2_FQ2.mul", "args": [lit(W.cls_by_key["adhoc_opt_7_m2_FQ2"]([3, 4])), lit(W.cls_by_key["adhoc_opt_7_m2_FQ2"]([5, 6]))]},
+        {"f": f"{OB}.exp_by_p", "args": [f12(f"{OB}_FQ12", 3)]},
+        {"f": f"{OB}.multiply:G2", "args": [{"c": f"py_ecc.{OB}.G2"}, lit(12345)]},
+        {"f": "optimized_bn128.multiply:G1", "args": [{"c": "py_ecc.optimized_bn128.G1"}, lit(2 ** 64 + 3)]},
+        {"f": "map_to_curve_G2", "args": [{"c": "py_ecc.optimized_bls12_381.constants.ISO_3_Z"}]},
+        {"f": "secp.multiply_G", "args": [lit(2 ** 200 + 9)]},
+        {"f": "hkdf_expand:bytearray", "args": [lit(bytearray(32)), lit(bytearray(b"info")), lit(64)]},
+        {"f": f"{OB}.final_exponentiate", "args": [{"c": f"{op}.exptable[7]"}]},
+    ]
+    steps = sanitize_steps(W, steps)
+    o_threads(ctx, {"steps": steps, "threads": 3, "reps": reps})
+
+
+ORACLES = {"history": o_history, "threads": o_threads}
 
 
 # =========================================================================================================
@@ -931,7 +1008,7 @@ def sanitize_steps(W, steps):
 
 def tasks(tier):
     q = tier == "quick"
-    out = [Task("pinned", "t_pinned")]
+    out = [Task("pinned", "t_pinned"), Task("threads", "t_threads", reps=4 if q else 60)]
     for s in range(15):
         out.append(Task(f"machine-{s}", "t_machine", shard=s, histories=24 if q else 400, steps=30 if q else 50,
                         budget=40 if q else 60, fresh_every=4 if q else 5))
